@@ -299,7 +299,8 @@ class Episode:
         self.space_contracts = ([Cash()] if cfg.get("cash_in_space") else []) + list(self.traded)
         if space == "box":
             self.space = BoxPortfolio(self.space_contracts, low=cfg.get("low", -1.0), high=cfg.get("high", 2.0),
-                                      as_weights=cfg.get("as_weights", True), fractional=cfg.get("fractional", True))
+                                      as_weights=cfg.get("as_weights", True), fractional=cfg.get("fractional", True),
+                                      margin=cfg.get("space_margin", 0.0))
         else:
             n = len(self.space_contracts)
             self.allocs = [[0.0] * n, [0.5] * n, [-0.5] * n, [1.0] + [0.0] * (n - 1)]
